@@ -167,6 +167,14 @@ def r02e(ctx, rep, which):
         if f is None:
             rep.violation('R02e', 'anchor-missing', spec['replay'], '-', 'anchor-missing: replay function of %s not found' % w)
             continue
+        # the record loop may live in a helper of the same module (replay → replay_file): follow the calls
+        if len(A.calls_to(f, READ_EXACT)) < 2:
+            cg = ctx.callgraph([spec['crate']])
+            mod = re.sub(r'::<[^>]*>', '', spec['struct']).rsplit('::', 1)[0]
+            cands = [cg.fns[n] for n in sorted(cg.reach([f.name])) if n in cg.fns and n.startswith(mod + '::') and len(A.calls_to(cg.fns[n], READ_EXACT)) >= 2
+                     and not re.search(r'valid_prefix', n)]
+            if cands:
+                f = cands[0]
         rep.analysed(f)
         uses = A.Uses(f)
         reads = A.calls_to(f, READ_EXACT)
@@ -290,3 +298,46 @@ def r02g(ctx, rep, which):
         if not bad:
             rep.holds('R02g', starts[1], '%s size policies' % w, '%d reader function(s), %d policy comparison(s), all matched by the writer' % (len(readers), n))
         rep.floor('R02g', 'functions reachable from open/replay of %s' % w, len(readers), 2)
+
+
+def r02h(ctx, rep, which):
+    rep.rule('R02h', 'rotated segments are read oldest first: rotate() renames segment i to i+1, so a higher index is older. Any WAL function '
+                     'that loops over rotated_path(i) and reads the files (opens / replays them, as opposed to removing or renaming them) '
+                     'iterates the indices in descending order (.rev()); ascending order feeds recovery a TxComplete before its TxBegin '
+                     'and a finished transaction comes back as in progress. Today no WAL reads its rotated segments at all')
+    for w in which:
+        spec = WALS[w]
+        cr = ctx.crate(spec['crate'])
+        base = re.sub(r'::<[^>]*>', '', spec['struct'])
+        n = 0
+        nf = 0
+        for name, f in sorted(cr.fns.items()):
+            if not re.sub(r'::<[^>]*>', '', name).startswith(base + '::'):
+                continue
+            nf += 1
+            rps = [c for c in A.calls_to(f, ('re', r'::rotated_path$')) if c.bb in A.reachable(f, [c.target])]
+            if not rps:
+                continue
+            defs = A.Defs(f)
+            uses = A.Uses(f)
+            for k, c in enumerate(rps):
+                # what is done with the path
+                tainted = lib.forward_taint(f, {c.dest[0]})
+                reads = [x for x in A.calls(f) if any(a[0] != 'k' and a[1][0] in tainted for a in x.args) and
+                         re.search(r'File::open$|OpenOptions::open$|::replay\w*$|::read\w*$|BufReader', x.resolved)]
+                if not reads:
+                    continue
+                n += 1
+                rep.analysed(f)
+                sl = A.backward_slice(f, [c.args[-1]], defs) if c.args and c.args[-1][0] != 'k' else None
+                desc = sl is not None and any(re.search(r'Iterator::rev$|DoubleEndedIterator>?::next_back$|Rev<', x) for x in sl.calls)
+                if desc:
+                    rep.holds('R02h', f, '%s segments#%d' % (w, k), 'read in descending index order')
+                else:
+                    rep.violation('R02h', f, 'segments-newest-first', f.loc(c.line),
+                                  'rotated segments are read in ascending index order, i.e. newest first (rotate() moves segment i to '
+                                  'i+1): records reach recovery out of order — a transaction prepared in an older segment and completed in '
+                                  'a newer one is seen as TxComplete-then-TxBegin and restored as Prepared, where abort() succeeds')
+        if n == 0:
+            rep.holds('R02h', base, '%s rotated segments' % w, 'never read (%d methods scanned)' % nf)
+        rep.floor('R02h', '%s methods scanned' % w, nf, 5)
